@@ -108,6 +108,8 @@ type Path struct {
 	traceKeyN    int
 	noSolverSimp bool
 	mergeBaseObj int
+	mergeDepth   int // len(p.stack) when the outermost merge region started
+	extRanges    [][2]int // object id ranges (lo,hi] of globals created lazily inside a merge region
 	mergeBudget  int64
 }
 
@@ -134,6 +136,10 @@ type deferred struct {
 }
 
 func (p *Path) end(kind, format string, a ...any) {
+	if p.guard != nil {
+		// the end is conditional on the arm's guard: evaluate the branch by forking instead
+		panic(mergeAbort{"path end (" + kind + ") in merge region"})
+	}
 	panic(pathEnd{Kind: kind, Msg: fmt.Sprintf(format, a...)})
 }
 
